@@ -1,6 +1,7 @@
 import SpecterModel.C41.Gen
 /-!
-# C41 — protocol model of the connection-reuse negotiation (`overlay/reuse.go`, `overlay/reaper.go`)
+# C41 — protocol model of the connection-reuse negotiation (`overlay/reuse.go`, `overlay/reaper.go`, and the
+close-watchers started by `handleIncoming` / `handleOutgoing` in `overlay/transport.go`)
 
 Two peers P and Q. Connection `c` is dialed by P (outgoing at P, incoming at Q); in the simultaneous-open
 scenario (`dual`) Q also dials `d`. `e` is a pre-existing cached connection. Every end of every new
@@ -11,10 +12,16 @@ connection runs `reuseConnection`, which is two atomic steps (the keyed RW mutex
   re-load leaves, which see the entry that is in the cache NOW (`rc` = is there one, `rcdir` = its direction);
   effects: close fresh / close cache / store / delete, result returned to the caller;
   an incoming end that returns an error closes the connection (`AcceptWithListener`, code 406);
-* `reap`  (`handlePeer` goroutine → `reapPeer`): once a connection that this end stored (returned as new) is
-  closed, `reapPeer` runs for it: under the key's Lock it looks at the entry that is CACHED at that moment
-  (`loaded`), and — facts `reap loaded` extracted from `overlay/reaper.go` — closes the cached entry's
-  connection, closes the triggering connection, deletes the entry;
+* `reap`  (close-watcher goroutine → `reapPeer`): WHICH ends get a close-watcher for the connection they negotiated
+  is the fact `watch dir reused` extracted from `handleIncoming` / `handleOutgoing` (`overlay/transport.go`): for the
+  code as it is, exactly the ends whose connection came back as new (`handlePeer`), never an end whose connection
+  LOST the negotiation (another connection was returned as reused) - the losing connection is closed by the
+  negotiation itself, and `reapPeer` reaps by KEY: a watcher on the loser would tear down the cached connection both
+  peers just agreed to reuse. Once a watched connection is closed, `reapPeer` runs for it: under the key's Lock it
+  looks at the entry that is CACHED at that moment (`loaded`), and — facts `reap loaded` extracted from
+  `overlay/reaper.go` — closes the cached entry's connection, closes the triggering connection, deletes the entry;
+  (`watch dir true`.returned - a SECOND close-watcher on a connection that is cached already - is not modelled: the
+  extracted fact is `false`, theorem `watchers_only_on_stored_connections`);
 * `reapE` the same for the close-watcher goroutine of the pre-existing connection `e` (every side that caches
   `e` stored it in an earlier negotiation and therefore runs such a goroutine);
 * `late`  a STALE `reapPeer`: a second reap of an older connection `o` to the same peer that died and was
@@ -71,8 +78,9 @@ structure Table where
   snapshot : Bool → Dir → Dir → CState × Dir
   decide : CState → Dir → Bool → Dir → Dir → Bool → Dir → Act
   reap : Bool → ReapAct
+  watch : Dir → Bool → WatchAct
 
-def genTable : Table := ⟨Gen.C41.snapshot, Gen.C41.decide, Gen.C41.reap⟩
+def genTable : Table := ⟨Gen.C41.snapshot, Gen.C41.decide, Gen.C41.reap, Gen.C41.watch⟩
 
 /-- what closed a connection first -/
 inductive Cl where
@@ -93,7 +101,9 @@ abbrev Entry := Option (Conn × Dir)
 inductive PC where
   | idle
   | snapped (snap : Entry) (status : CState × Dir)
-  | done (status : CState × Dir) (res : Res) (reaped : Bool)
+  /-- `watched`: this end started a close-watcher (→ `reapPeer`) for the connection it negotiated; `reaped`: that
+  watcher has run -/
+  | done (status : CState × Dir) (res : Res) (watched : Bool) (reaped : Bool)
 deriving DecidableEq, Repr
 
 structure St where
@@ -161,13 +171,13 @@ def allSteps : List Step := ownSteps ++ envSteps
 def PC.status? : PC → Option (CState × Dir)
   | .idle => none
   | .snapped _ st => some st
-  | .done st _ _ => some st
+  | .done st _ _ _ => some st
 
 def enabled (s : St) : Step → Bool
   | .snap i => i.active s && (match s.pc i with | .idle => true | _ => false)
   | .dec i => (match s.pc i with | .snapped _ _ => true | _ => false) &&
       (match s.pc i.peer with | .idle => false | _ => true)
-  | .reap i => (match s.pc i with | .done _ .fresh false => true | _ => false) && s.closed i.conn
+  | .reap i => (match s.pc i with | .done _ _ true false => true | _ => false) && s.closed i.conn
   | .reapE x => s.watch x && s.closed .e
   | .late x => s.lateOk x
   | .kill => s.dieE && !s.closed .e
@@ -187,6 +197,14 @@ def reapPeer (T : Table) (s : St) (x : Side) (trigger : Option Conn) (by_ : Cl) 
     | true, some q => s.close by_ q
     | _, _ => s
   if a.del then s.setCache x none else s
+
+/-- does the end `i` start a close-watcher for the connection it negotiated? `flag` = the `reused` flag that
+`reuseConnection` returned, `res` = what it returned: the own connection (as new, or found in the cache) or another
+one. Facts `T.watch` of `handleIncoming` / `handleOutgoing`. -/
+def ownWatched (T : Table) (i : Proc) (flag : Bool) : Res → Bool
+  | .fresh => (T.watch i.dir flag).returned
+  | .reused x => if x = some i.conn then (T.watch i.dir flag).returned else (T.watch i.dir flag).negotiated
+  | .err => false
 
 def step (T : Table) (s : St) : Step → St
   | .snap i =>
@@ -213,12 +231,12 @@ def step (T : Table) (s : St) : Step → St
       let s := match res, i.dir with
         | .err, .incoming => s.close .neg i.conn
         | _, _ => s
-      s.setPc i (.done mine res false)
+      s.setPc i (.done mine res (ownWatched T i act.reused res) false)
     | _, _ => s
   | .reap i =>
     match s.pc i with
-    | .done st .fresh false =>
-      (reapPeer T s i.side (some i.conn) (s.cl i.conn)).setPc i (.done st .fresh true)
+    | .done st res true false =>
+      (reapPeer T s i.side (some i.conn) (s.cl i.conn)).setPc i (.done st res true true)
     | _ => s
   | .reapE x =>
     let s := reapPeer T s x (some .e) s.clE
@@ -266,7 +284,7 @@ def fPC (p : PC) (k : PC → α) : α :=
   match p with
   | .idle => k .idle
   | .snapped e st => fEntry e fun e => fStatus st fun st => k (.snapped e st)
-  | .done st r b => fStatus st fun st => fRes r fun r => fB b fun b => k (.done st r b)
+  | .done st r w b => fStatus st fun st => fRes r fun r => fB w fun w => fB b fun b => k (.done st r w b)
 def fSt (s : St) (k : St → α) : α :=
   fB s.dual fun a => fEntry s.cacheP fun b => fEntry s.cacheQ fun c => fCl s.clE fun d => fCl s.clC fun e =>
   fCl s.clD fun f => fPC s.pPc fun g => fPC s.pQc fun h => fPC s.pQd fun i => fPC s.pPd fun j =>
@@ -297,7 +315,7 @@ them; a stale reap of an older connection and the death of the pre-existing conn
 negotiation) -/
 def reusedNotClosed (s : St) : Bool :=
   allProcs.all fun i => match s.pc i with
-    | .done _ (.reused (some x)) _ => (match s.cl x with | .neg => false | _ => true)
+    | .done _ (.reused (some x)) _ _ => (match s.cl x with | .neg => false | _ => true)
     | _ => true
 
 /-- T3: a side caches a NEW connection only if the other side caches the same one -/
@@ -309,7 +327,7 @@ def newOnlyIfPeer (s : St) : Bool :=
 
 /-- both sides stored a fresh connection, and not the same one (simultaneous-open cross) -/
 def crossStore (s : St) : Bool :=
-  let stored (i : Proc) : Bool := match s.pc i with | .done _ .fresh _ => true | _ => false
+  let stored (i : Proc) : Bool := match s.pc i with | .done _ .fresh _ _ => true | _ => false
   (stored .Pc && stored .Qd) || (stored .Pd && stored .Qc)
 
 /-- the three properties; T2 is demanded unless the run is a simultaneous-open cross store -/
@@ -329,6 +347,13 @@ def preStates : List (Entry × Entry) :=
     (some (.e, .outgoing), none), (some (.e, .incoming), none),
     (none, some (.e, .incoming)), (none, some (.e, .outgoing)),
     (some (.e, .outgoing), some (.e, .incoming)), (some (.e, .incoming), some (.e, .outgoing)) ]
+
+/-- both peers cache the pre-existing connection (the further negotiation is redundant) -/
+def sharedStates : List (Entry × Entry) :=
+  [ (some (.e, .outgoing), some (.e, .incoming)), (some (.e, .incoming), some (.e, .outgoing)) ]
+
+/-- the shared pre-existing connection is still cached by both peers, and open -/
+def keepsShared (s : St) : Bool := s.cached .P == some .e && s.cached .Q == some .e && !s.closed .e
 
 /-- which sides may see a stale reap: none, or one of the two -/
 def lateConfigs : List (Bool × Bool) := [(false, false), (true, false), (false, true)]
